@@ -130,6 +130,11 @@ impl Compound {
         meter == Some(1) && second == Some(-2)
     }
 
+    /// Test if this is exactly one unit with a power of one.
+    fn is_single_unit(&self) -> bool {
+        self.names.len() == 1 && self.names.values().all(|s| s.power == 1)
+    }
+
     /// Calculate the factor for coercing one unit to another.
     pub(crate) fn factor(&self, other: &Self, value: &mut Rational) -> Result<bool, CompoundError> {
         if self.is_empty() || other.is_empty() {
@@ -154,16 +159,30 @@ impl Compound {
             }
         }
 
+        // A scale with an offset (like °C) only converts through its zero point
+        // when it stands alone with a power of one on both sides, anything else
+        // (°C/s, m*°C, 1/°C) is not a temperature and must not have the offset
+        // added to it.
+        let offsets = self.is_single_unit() && other.is_single_unit();
+
         for (name, state) in &other.names {
             *value *= Rational::new(10u32, 1u32).pow(state.prefix * state.power);
 
             if let Some(conversion) = name.conversion() {
+                if !offsets && has_offset(&conversion) {
+                    return Err(CompoundError);
+                }
+
                 apply_conversion(state.power, value, conversion)?;
             }
         }
 
         for (name, state) in &self.names {
             if let Some(conversion) = name.conversion() {
+                if !offsets && has_offset(&conversion) {
+                    return Err(CompoundError);
+                }
+
                 apply_conversion(-state.power, value, conversion)?;
             }
 
@@ -518,6 +537,11 @@ impl fmt::Display for Compound {
     fn fmt(&self, f: &mut fmt::Formatter<'_>) -> fmt::Result {
         self.display(false).fmt(f)
     }
+}
+
+/// Test if the conversion goes through a zero point offset.
+fn has_offset(conversion: &Conversion) -> bool {
+    matches!(conversion, Conversion::Methods(..) | Conversion::Offset(..))
 }
 
 fn apply_conversion(
